@@ -261,6 +261,39 @@ def rewrite_R14(text):
         out.append(toks[k].text); k += 1
     return "".join(out)
 
+def rewrite_R11(text):
+    """vec![] -> Vec::new(); vec![a] -> vec1(a); vec![a, b] -> vec2(a, b)  (helpers with verified bodies in speclib/std_specs.rs)"""
+    toks = retok(text)
+    out = []
+    k = 0
+    n = len(toks)
+    changed = False
+    while k < n:
+        t = toks[k]
+        if t.kind == "ident" and t.text == "vec" and k + 2 < n and toks[k + 1].text == "!" and toks[k + 2].text == "[":
+            close = match_close(toks, k + 2)
+            inner = toks[k + 3:close]
+            # split on top-level commas
+            parts, cur, depth = [], [], 0
+            for tt in inner:
+                if tt.kind == "punct" and tt.text in ("(", "[", "{"): depth += 1
+                elif tt.kind == "punct" and tt.text in (")", "]", "}"): depth -= 1
+                if tt.kind == "punct" and tt.text == "," and depth == 0:
+                    parts.append(cur); cur = []
+                else:
+                    cur.append(tt)
+            if toks_text(cur).strip(): parts.append(cur)
+            args = [rewrite_R11(toks_text(p).strip()) for p in parts]
+            if len(args) == 0: out.append("Vec::new()")
+            elif len(args) <= 2: out.append("vec%d(%s)" % (len(args), ", ".join(args)))
+            else: raise LostAnchor("vec! literal with %d elements has no helper" % len(args))
+            k = close + 1
+            changed = True
+            continue
+        out.append(t.text)
+        k += 1
+    return "".join(out)
+
 def rewrite_R2(text):
     text = re.sub(r"unsafe\s*\{\s*([A-Za-z_\.]+(?:\.as_ref\(\)\?)?)\s*\.get_mut\(\s*([^)]*?)\s*\)\s*\}", r"&\1.0[\2]", text)
     text = re.sub(r"&\s*('[a-z_]+\s+)?mut\s+", lambda m: "&" + (m.group(1) or ""), text)
@@ -294,6 +327,7 @@ class Unit:
         self.name = name
         self.speclib = []
         self.entries = []         # ("struct"/"enum"/"fn"/"raw", ...)
+        self.verify_speclib = False
         self.spec_path = None
 
 _TAG = re.compile(r"^\s*\[([^\]]*)\]\s*")
@@ -318,13 +352,24 @@ def parse_unit(path):
         s = ln.strip()
         if s == "" or s.startswith("#"):
             i += 1; continue
+        if s == "verify_speclib":
+            u.verify_speclib = True
+            i += 1; cur = None; continue
         if s.startswith("include "):
-            sub = parse_unit(os.path.join(os.path.dirname(path), s.split()[1]))
+            parts_ = s.split()
+            sub = parse_unit(os.path.join(os.path.dirname(path), parts_[1]))
+            if "contract_only" in parts_[2:]:
+                for e in sub.entries:
+                    if e[0] == "fn":
+                        e[1].opts["contract_only"] = True
             u.entries += sub.entries
             i += 1; cur = None; continue
         if s.startswith("speclib "):
-            for f in s.split()[1:]:
-                u.entries.append(("speclib", f))
+            ws_ = s.split()[1:]
+            force = "verify" in ws_
+            for f in ws_:
+                if f == "verify": continue
+                u.entries.append(("speclib", f, force))
             i += 1; cur = None; continue
         if s.startswith("==="):
             parts = s[3:].split()
@@ -373,7 +418,7 @@ def parse_unit(path):
             cur.loops.setdefault(k, []).append(Clause(sub, [t.strip() for t in tags], body, i + 1))
         elif d == "at":
             # at body_start | at loop K start | at before /re/ [#n] | at after /re/ [#n] | at end
-            m2 = re.match(r"(body_start|loop\s+\d+\s+start|before\s+/.*?/(?:\s*#\d+)?|after\s+/.*?/(?:\s*#\d+)?|stmt_after\s+/.*?/(?:\s*#\d+)?)\s*(?:\[([^\]]*)\])?\s*:?\s*(.*)$", full, re.S)
+            m2 = re.match(r"(body_start|fn_end|exits|loop\s+\d+\s+start|loop\s+\d+\s+end|loop\s+\d+\s+after|arm\s+/.*?/(?:\s*#\d+)?\s+(?:start|end)|block\s+/.*?/(?:\s*#\d+)?\s+(?:start|end|else_start|else_end)|before\s+/.*?/(?:\s*#\d+)?|after\s+/.*?/(?:\s*#\d+)?|stmt_after\s+/.*?/(?:\s*#\d+)?)\s*(?:\[([^\]]*)\])?\s*:?\s*(.*)$", full, re.S)
             if not m2:
                 raise ValueError("%s:%d bad at-directive" % (path, i + 1))
             cur.ats.append((m2.group(1), m2.group(3), i + 1, [x.strip() for x in (m2.group(2) or "").split(",") if x.strip()]))
@@ -462,6 +507,113 @@ def find_closures(toks):
                 res.append((k, s[j]))
     return res
 
+def _next_sig(toks, k):
+    k += 1
+    while k < len(toks) and toks[k].kind in ("ws", "comment", "doc"):
+        k += 1
+    return k
+
+def block_end_tok(body, k_open):
+    """token index before which an `end` hint of the block body[k_open]=='{' is inserted:
+    the first token of the tail expression, or the closing brace when the block ends with a statement."""
+    k_close = match_close(body, k_open)
+    depth = 0
+    last_end = k_open          # token index of the end of the last complete statement
+    last_stmt_start = None
+    stmt_start = _next_sig(body, k_open)
+    k = k_open + 1
+    while k < k_close:
+        t = body[k]
+        if t.kind == "punct":
+            if t.text in ("(", "[", "{"):
+                kk = match_close(body, k)
+                if t.text == "{":
+                    nxt = _next_sig(body, kk)
+                    nt = body[nxt]
+                    cont = (nt.kind == "ident" and nt.text == "else") or (nt.kind == "punct" and nt.text in (".", "?", ";", ",")) \
+                        or (nt.kind == "punct" and nt.text in ("==", "!=", "&&", "||", "+", "-", "*", "/", "<", ">", "<=", ">=", "=>", "as"))
+                    # a block that is the body of `match x {..}` / `if c {..}` / `loop {..}` ... ends a statement when
+                    # followed by the start of something new
+                    first = body[stmt_start]
+                    blocklike = first.kind == "ident" and first.text in ("if", "match", "loop", "while", "for", "unsafe") or first.text == "{"
+                    if not cont and blocklike:
+                        if nxt == k_close:
+                            # block-like element in tail position: it is the tail expression -- except for
+                            # `while`/`for` loops, which have unit type: the end position is after them
+                            if first.text in ("while", "for"):
+                                return k_close
+                            return stmt_start
+                        last_end = kk
+                        last_stmt_start = stmt_start
+                        stmt_start = nxt
+                k = kk + 1
+                continue
+            if t.text == ";":
+                last_end = k
+                last_stmt_start = stmt_start
+                stmt_start = _next_sig(body, k)
+        k += 1
+    first_tail = _next_sig(body, last_end)
+    if first_tail < k_close:
+        return first_tail
+    # the block ends with a statement; if that statement is a `return`, the end position is before it
+    if last_stmt_start is not None and body[last_stmt_start].kind == "ident" and body[last_stmt_start].text == "return":
+        return last_stmt_start
+    return k_close
+
+def find_block_after(body, char_pos, base):
+    """first '{' token at paren depth 0 at or after character offset char_pos (offset relative to body text)"""
+    depth = 0
+    for k, t in enumerate(body):
+        if t.start - base < char_pos: continue
+        if t.kind == "punct":
+            if t.text in ("(", "["): depth += 1
+            elif t.text in (")", "]"): depth -= 1
+            elif t.text == "{" and depth <= 0:
+                return k
+    return None
+
+def exit_points(body, k_open):
+    """token indices before which an `exits` hint goes: the leaf tail positions of the block body[k_open]"""
+    t = block_end_tok(body, k_open)
+    k_close = match_close(body, k_open)
+    if t >= k_close:
+        return [t]
+    first = body[t]
+    if first.kind == "ident" and first.text == "if":
+        pts = []
+        k = t
+        while True:
+            # find the block of this `if` (first '{' at paren depth 0)
+            depth = 0
+            kb_ = None
+            j = k + 1
+            while j < k_close:
+                tt = body[j]
+                if tt.kind == "punct":
+                    if tt.text in ("(", "["): depth += 1
+                    elif tt.text in (")", "]"): depth -= 1
+                    elif tt.text == "{" and depth <= 0:
+                        kb_ = j; break
+                j += 1
+            if kb_ is None:
+                return [t]
+            pts += exit_points(body, kb_)
+            kc = match_close(body, kb_)
+            ke = _next_sig(body, kc)
+            if ke < k_close and body[ke].kind == "ident" and body[ke].text == "else":
+                kn = _next_sig(body, ke)
+                if body[kn].kind == "ident" and body[kn].text == "if":
+                    k = kn
+                    continue
+                if body[kn].kind == "punct" and body[kn].text == "{":
+                    pts += exit_points(body, kn)
+                    return pts
+                return [t]
+            # `if` without else in tail position: unit type, hint after it is fine
+            return pts + [k_close]
+    return [t]
+
 def emit_fn(out, u, fs, rules_used):
     src, ftoks, it, impl = find_item(fs.file, "fn", fs.name, fs.impl_sel)
     first_line = it.line(src)
@@ -474,7 +626,7 @@ def emit_fn(out, u, fs, rules_used):
     t2 = pub_vis(text1)
     if t2 != text1: rules_used.add("R7")
     text1 = t2
-    for rule, fnr in (("R1", lambda t: rewrite_R1(t, in_table_impl)), ("R3", rewrite_R3), ("R8", rewrite_R8), ("R10", rewrite_R10), ("R14", rewrite_R14)):
+    for rule, fnr in (("R1", lambda t: rewrite_R1(t, in_table_impl)), ("R3", rewrite_R3), ("R8", rewrite_R8), ("R10", rewrite_R10), ("R14", rewrite_R14), ("R11", rewrite_R11)):
         t2 = fnr(text1)
         if t2 != text1: rules_used.add(rule)
         text1 = t2
@@ -565,7 +717,10 @@ def emit_fn(out, u, fs, rules_used):
         pass
     if where_text:
         sig_line += "\n    " + where_text
+    if fs.opts.get("contract_only"):
+        out.add("#[verifier::external_body] // contract of %s assumed here; it is verified in its home unit" % fs.name, ("contract_only", fs.name))
     for a in fs.opts.get("attrs", []):
+        if fs.opts.get("contract_only") and "spinoff" in a: continue
         out.add(a, ("glue",))
     # line accounting: the signature occupies original lines first_line .. line_of(kbody)
     out.add_repo(sig_line, fs.file, first_line)
@@ -580,6 +735,9 @@ def emit_fn(out, u, fs, rules_used):
                 if not txt.rstrip().endswith(","): txt += ","
                 out.add(indent + "    " + txt.replace("\n", "\n" + indent), ("clause", u.name, fs.name, kind, c.tags, c.src_line, cid))
     emit_clause_group(fs.clauses, ("requires", "ensures", "returns", "decreases"), "    ")
+    if fs.opts.get("contract_only"):
+        out.add("{ unimplemented!() }", ("glue",))
+        return
     # ---- body with splices ----
     body = toks[kbody:kbody_close + 1]
     body_first_line = first_line + text1.count("\n", 0, toks[kbody].start)
@@ -614,11 +772,87 @@ def emit_fn(out, u, fs, rules_used):
         block = [("        " + l, origin) for l in txt.split("\n")]
         if where == "body_start":
             ins.append((off(body[0]) + 1, "after", block))
+        elif where == "fn_end":
+            ins.append((off(body[block_end_tok(body, 0)]), "before", block))
+        elif where == "exits":
+            # before every `return` (not inside closures) and before the tail of the function body
+            cl_ranges = []
+            for (a, b) in find_closures(body):
+                cl_ranges.append(a)
+            for kx, tx in enumerate(body):
+                if tx.kind == "ident" and tx.text == "return":
+                    ins.append((off(tx), "before", block))
+            for kx in exit_points(body, 0):
+                ins.append((off(body[kx]), "before", block))
         elif where.startswith("loop"):
             kk = int(where.split()[1])
             if kk >= len(loops):
                 raise LostAnchor("fn %s: loop %d not found" % (fs.name, kk))
-            ins.append((off(body[loops[kk][1]]) + 1, "after", block))
+            if where.split()[2] == "start":
+                ins.append((off(body[loops[kk][1]]) + 1, "after", block))
+            elif where.split()[2] == "after":
+                kc = match_close(body, loops[kk][1])
+                ins.append((off(body[kc]) + 1, "after", block))
+            else:
+                ins.append((off(body[block_end_tok(body, loops[kk][1])]), "before", block))
+        elif where.startswith("arm") or where.startswith("block"):
+            m = re.match(r"(arm|block)\s+/(.*?)/(?:\s*#(\d+))?\s+(\w+)$", where, re.S)
+            kind_, rx, nth, pos_ = m.group(1), m.group(2), int(m.group(3) or 1), m.group(4)
+            ms = list(re.finditer(rx, btext))
+            if len(ms) < nth:
+                raise LostAnchor("fn %s: anchor /%s/ #%d not found" % (fs.name, rx, nth))
+            mm = ms[nth - 1]
+            if kind_ == "arm":
+                # advance to `=>`
+                karrow = None
+                depth = 0
+                for kx, tx in enumerate(body):
+                    if tx.start - base < mm.start(): continue
+                    if tx.kind == "punct":
+                        if tx.text in ("(", "[", "{"): depth += 1
+                        elif tx.text in (")", "]", "}"): depth -= 1
+                        elif tx.text == "=>" and depth <= 0:
+                            karrow = kx; break
+                if karrow is None:
+                    raise LostAnchor("fn %s: arm /%s/ has no =>" % (fs.name, rx))
+                kb_ = _next_sig(body, karrow)
+                if body[kb_].kind == "punct" and body[kb_].text == "{":
+                    if pos_ == "start":
+                        ins.append((off(body[kb_]) + 1, "after", block))
+                    else:
+                        ins.append((off(body[block_end_tok(body, kb_)]), "before", block))
+                else:
+                    # expression arm `PAT => expr,` : wrap into a block
+                    e = kb_
+                    depth = 0
+                    while e < len(body):
+                        tt = body[e]
+                        if tt.kind == "punct":
+                            if tt.text in ("(", "[", "{"): depth += 1
+                            elif tt.text in (")", "]", "}"):
+                                if depth == 0: break
+                                depth -= 1
+                            elif tt.text == "," and depth == 0:
+                                break
+                        e += 1
+                    ins.append((off(body[kb_]), "before", [("{", ("glue",))] + block))
+                    ins.append((off(body[e]), "before", [("}", ("glue",))]))
+            else:
+                kb_ = find_block_after(body, mm.end(), base)
+                if kb_ is None:
+                    raise LostAnchor("fn %s: block after /%s/ not found" % (fs.name, rx))
+                if pos_.startswith("else"):
+                    kc = match_close(body, kb_)
+                    ke = _next_sig(body, kc)
+                    if not (body[ke].kind == "ident" and body[ke].text == "else"):
+                        raise LostAnchor("fn %s: block /%s/ has no else" % (fs.name, rx))
+                    kb_ = _next_sig(body, ke)
+                    if not (body[kb_].kind == "punct" and body[kb_].text == "{"):
+                        raise LostAnchor("fn %s: else of /%s/ is not a block" % (fs.name, rx))
+                if pos_.endswith("start"):
+                    ins.append((off(body[kb_]) + 1, "after", block))
+                else:
+                    ins.append((off(body[block_end_tok(body, kb_)]), "before", block))
         else:
             m = re.match(r"(before|after|stmt_after)\s+/(.*?)/(?:\s*#(\d+))?$", where, re.S)
             mode, rx, nth = m.group(1), m.group(2), int(m.group(3) or 1)
@@ -767,7 +1001,11 @@ def assemble(unit_path):
             u.speclib.append(f)
             p = os.path.join(VERIF, "speclib", f)
             txt = open(p).read().rstrip("\n")
+            assume = not (u.verify_speclib or (len(e) > 2 and e[2]))
             for k, l in enumerate(txt.split("\n")):
+                if assume and re.match(r"\s*pub proof fn ", l):
+                    # lemma statement assumed in this unit; its proof is checked in the unit `speclib`
+                    l = "#[verifier::external_body] " + l
                 out.lines.append(l)
                 out.map.append(("speclib", f, k + 1))
         elif e[0] in ("struct", "enum"):
